@@ -158,15 +158,53 @@ def run(chk):
 
     def r7():
         chk.rule("R7", "prefix strings: cumulative, `.`-joined, whitespace-free on both sides of the comparison", floor=3)
+        from ..pe import Evaluator, ListV, StructV, SymObj, Tag, explore, vkey
+        from ..tables import IMPL_FILES
+
+        def conc():
+            ev = Evaluator(repo, IMPL_FILES)
+            ev.concrete_iters = True
+            return ev
+        # build_child_path_str on a three-component path: evaluated with the std iterator / loop semantics, whatever the code shape
         fb = repo.fn(ATTR, "build_child_path_str")
-        src = render(fb.body).replace(" ", "")
-        ok = "child_path.iter().for_each(" in src and 'child_path_str.push(x.to_token_stream().to_string())' in src and 'format!("{}.{}",child_path_str.last().map(|x|x.as_str()).unwrap_or(""),x.to_token_stream())' in src
-        fmts = re.findall(r'format!\("([^"]*)"', src)
-        chk.shape("R7", "build_child_path_str", ok, bool(fmts) and not any(f_ == "{}.{}" for f_ in fmts), ATTR, fb.line, "prefix i must be prefix i-1 + '.' + component i", found=src[:200])
+        pname = [p for p in fb.params][0]
+        ms = [SymObj(f"m{i}", ("named", "Member")) for i in range(3)]
+        verdict, found = None, None
+        try:
+            lvs = explore(conc, lambda ev: ev.run_fn(fb, {pname: ListV(list(ms))}))
+            if len(lvs) == 1 and not lvs[0].panic and not lvs[0].unsupported and isinstance(lvs[0].value, ListV):
+                got = [vkey(x).replace(" ", "") for x in lvs[0].value.elems]
+                found = got
+
+                def comp(i):
+                    return {f"«‹m{i}›»", f"str(‹m{i}›)"}
+                exp_prev = {"str(‹m0›)", "«‹m0›»"}
+                ok = len(got) == 3 and got[0] in exp_prev
+                for i in (1, 2):
+                    if not ok:
+                        break
+                    cands = {f"format({{}}.{{}};{got[i - 1]},{c})" for c in comp(i)}
+                    ok = got[i] in cands
+                verdict = ok
+        except Exception as ex:  # not evaluable: undecided
+            found = repr(ex)[:120]
+        chk.shape("R7", "build_child_path_str", verdict is True, verdict is False, ATTR, fb.line, "prefix i must be prefix i-1 + '.' + component i (evaluated on a 3-component path)", found=found)
+        # ChildPath::get_child_path_str on concrete prefixes
         fg = repo.fn(ATTR, "get_child_path_str", impl="ChildPath")
-        src = render(fg.body).replace(" ", "")
-        ok = 'None=>self.child_path_str.last().map(|x|x.as_str()).unwrap_or("")' in src and "Some(depth)=>&self.child_path_str[depth]" in src
-        chk.shape("R7", "ChildPath::get_child_path_str", ok, "child_path_str[depth]" not in src and "child_path_str" in src, ATTR, fg.line, "None = whole path, Some(d) = prefix of depth d", found=src[:160])
+        verdict, found = None, {}
+        try:
+            me = lambda: StructV("ChildPath", {"child_path_str": ListV(["a", "a.b", "a.b.c"])}, rest=SymObj("self", ("named", "ChildPath")))
+            outs = {}
+            for label, d in (("None", Tag("None", [], "Option")), ("Some(0)", Tag("Some", [0], "Option")), ("Some(1)", Tag("Some", [1], "Option"))):
+                lvs = explore(conc, lambda ev, d=d: ev.run_fn(fg, {"self": me(), "depth": d}))
+                if len(lvs) != 1 or lvs[0].panic or lvs[0].unsupported:
+                    raise ValueError("not evaluable for depth " + label)
+                outs[label] = lvs[0].value
+            found = {k: vkey(v) for k, v in outs.items()}
+            verdict = outs["None"] == "a.b.c" and outs["Some(0)"] == "a" and outs["Some(1)"] == "a.b"
+        except Exception as ex:
+            found = repr(ex)[:120]
+        chk.shape("R7", "ChildPath::get_child_path_str", verdict is True, verdict is False, ATTR, fg.line, "None = whole path, Some(d) = prefix of depth d (evaluated on a/a.b/a.b.c)", found=found)
         for cfg in ("syn", "syn2"):
             fp = repo.fn_opt(ATTR, "try_parse_child_parents", cfg=f'feature="{cfg}"')
             if fp is None:
